@@ -155,6 +155,14 @@ def getitem(it, obj, idx):
             return dict_get(it, c, idx, default=None, raise_key=True)
     if isinstance(obj, VConc) and isinstance(obj.py, dict):
         return concrete_dict_get(it, obj.py, idx, None, True)
+    if isinstance(obj, VConc) and isinstance(obj.py, (tuple, list)):
+        i = _const_int(idx)
+        if i is None:
+            raise Unsupported('symbolic index into constant sequence')
+        try:
+            return from_py(obj.py[i])
+        except IndexError:
+            it.raise_(IndexError)
     if isinstance(obj, VMatch):
         return match_group(it, obj, idx)
     raise Unsupported('subscript on %r' % (obj,))
@@ -518,8 +526,13 @@ def percent_format(it, fmt, arg):
         i += 1
         parts.append(format_one(it, kind, v, fmt.b))
     parts.append(S(f[pos:]))
-    return VStr(z3.simplify(z3.Concat(*parts)) if len(parts) > 1
-                else parts[0], fmt.b)
+    res = VStr(z3.simplify(z3.Concat(*parts)) if len(parts) > 1
+               else parts[0], fmt.b)
+    # remember how the string was built (re.compile of a formatted pattern)
+    used = [getter(m, k) for k, m in enumerate(
+        [m for m in specs if m.group(2) != '%'])] if not named else []
+    ctx.ghost.setdefault('fmt_origin', {})[res.e.get_id()] = (f, used)
+    return res
 
 
 def format_one(it, kind, v, is_bytes):
@@ -597,6 +610,9 @@ def comprehension(it, e, kind):
             ctx.assume_forall(j, z3.Implies(
                 z3.And(j >= 0, j < n), L_at(m, j) == body.e),
                 defaults=[z3.IntVal(0), n - 1, n - 2])
+            for fct in ctx.ghost.pop('strip_facts', []):
+                ctx.assume_forall(j, z3.Implies(
+                    z3.And(j >= 0, j < n), fct), defaults=[])
             ctx.ghost.setdefault('maps', []).append((m, c.e, j, body.e))
             return ctx.alloc(SeqCell(m, kind_out))
         raise Unsupported('comprehension over %r' % (src,))
@@ -658,8 +674,14 @@ def concrete_attr(it, py, name):
         return VFunc(json_loads, 'json.loads')
     if py is json and name == 'dumps':
         return VFunc(json_dumps, 'json.dumps')
+    if py is codecs and name == 'lookup':
+        return VFunc(codecs_lookup, 'codecs.lookup')
     if py is re and name == 'compile':
         return VFunc(re_compile, 're.compile')
+    if isinstance(py, tuple) and py and py[0] == 'indent-pattern' and \
+            name == 'sub':
+        return VFunc(lambda it, a, k: indent_pattern_sub(it, py[1], a),
+                     'indent_re.sub')
     if isinstance(py, re.Pattern) and name in ('match', 'sub', 'fullmatch'):
         return VFunc(lambda it, a, k: pattern_call(it, py, name, a, k),
                      'Pattern.' + name)
@@ -679,6 +701,27 @@ def concrete_dict_method(it, d, name, args, kwargs):
     if name == 'keys':
         return VConc(tuple(d.keys()))
     raise Unsupported('dict.%s on module constant' % name)
+
+
+def codecs_lookup(it, args, kwargs):
+    """A-codec: lookup succeeds iff the codec is known; .name is the
+    canonical name (uninterpreted Canon)."""
+    from .values import VAttrs
+    ctx = it.ctx
+    enc = args[0]
+    if isinstance(enc, VBox):
+        enc = unbox_choose(ctx, enc)
+    if not isinstance(enc, VStr) or enc.b:
+        it.raise_(TypeError)
+    if is_concrete_str(enc):
+        try:
+            return VAttrs({'name': VStr(codecs.lookup(
+                concrete_str(enc)).name, False)})
+        except LookupError:
+            it.raise_(LookupError)
+    if not ctx.branch(F_CodecKnown(enc.e)):
+        it.raise_(LookupError)
+    return VAttrs({'name': VStr(F_Canon(enc.e), False)})
 
 
 def new_bytesio(it, args, kwargs):
@@ -977,8 +1020,26 @@ def json_dumps(it, args, kwargs):
 # ---------------------------------------------------------------------------
 # re
 # ---------------------------------------------------------------------------
+F_StripIndent = z3.Function('StripIndent', z3.StringSort(), z3.IntSort(),
+                            z3.StringSort())
+RE_MAXREPEAT = 4294967295
+
+
 def re_compile(it, args, kwargs):
     p = args[0]
+    ctx = it.ctx
+    origin = ctx.ghost.get('fmt_origin', {}).get(
+        p.e.get_id()) if isinstance(p, VStr) else None
+    if origin and origin[0] == '^ {1,%d}' and len(origin[1]) == 1 and \
+            isinstance(origin[1][0], (VInt, VBool)):
+        # the indentation pattern  ^ {1,N}  with a symbolic N (A-re):
+        # re.error when N < 1, OverflowError when N >= MAXREPEAT
+        n = as_int(origin[1][0])
+        if not ctx.branch(n >= 1):
+            it.raise_(re.error)
+        if not ctx.branch(n < RE_MAXREPEAT):
+            it.raise_(OverflowError)
+        return VConc(('indent-pattern', n))
     if is_concrete_str(p):
         s = concrete_str(p)
         try:
@@ -991,6 +1052,29 @@ def re_compile(it, args, kwargs):
 def pattern_call(it, pat, name, args, kwargs):
     from . import remodel
     return remodel.pattern_call(it, pat, name, args, kwargs)
+
+
+def indent_pattern_sub(it, n, args):
+    """re.compile(b'^ {1,N}').sub(b'', line): up to N leading spaces are
+    removed (StripIndent, characterised by its facts)."""
+    ctx = it.ctx
+    repl, line = args[0], args[1]
+    if not (is_concrete_str(repl) and concrete_str(repl) == ''):
+        raise Unsupported('indent pattern sub with a replacement')
+    if isinstance(line, VBox):
+        line = unbox_choose(ctx, line)
+    r = F_StripIndent(line.e, n)
+    sp = z3.SubString(line.e, 0, z3.Length(line.e) - z3.Length(r))
+    facts = z3.And(
+        z3.SuffixOf(r, line.e),
+        z3.InRe(sp, z3.Star(z3.Re(S(' ')))),
+        z3.Length(sp) <= n,
+        z3.Or(z3.Length(sp) == n, z3.Not(z3.PrefixOf(S(' '), r))))
+    if ctx.spec_mode:
+        ctx.ghost.setdefault('strip_facts', []).append(facts)
+    else:
+        ctx.assume(facts)
+    return VStr(r, line.b)
 
 
 def match_group(it, m, idx):
